@@ -8,6 +8,7 @@ import (
 	"fmt"
 	"os"
 	"path/filepath"
+	"strings"
 	"syscall"
 	"unicode/utf8"
 
@@ -69,7 +70,7 @@ func dispatch(op Op) (interface{}, error) {
 			return nil, err
 		}
 		app := javaapp.NewJavaIdentifierApp()
-		return app.AnalysisFiles(a.Files), nil
+		return app.AnalysisFiles(heldList(a.Files)), nil
 
 	case "identDir":
 		var a struct {
@@ -94,7 +95,7 @@ func dispatch(op Op) (interface{}, error) {
 			return nil, err
 		}
 		app := javaapp.NewJavaFullApp()
-		return app.AnalysisFiles(ident, a.Files), nil
+		return app.AnalysisFiles(ident, heldList(a.Files)), nil
 
 	case "fullDir":
 		var a struct {
@@ -245,6 +246,51 @@ func dispatch(op Op) (interface{}, error) {
 		}
 		app := &goapp.GoIdentApp{}
 		return app.Analysis(string(raw), a.File), nil
+
+	case "tear":
+		// harness op: every regular file of a directory is cut to a percentage of its length (what a
+		// command interrupted in the middle of its writes leaves behind)
+		var a struct {
+			Dir     string   `json:"dir"`
+			Percent int      `json:"percent"`
+			Keep    []string `json:"keep"` // file names left alone (inputs of the next command)
+			// Tmp: a sibling <name>.tmp is left for each of these report names, longer than any report
+			// (what an interrupted write-to-temporary-then-rename leaves); nothing ever reads them
+			Tmp []string `json:"tmp"`
+		}
+		if err := json.Unmarshal(op.Args, &a); err != nil {
+			return nil, err
+		}
+		if len(a.Tmp) > 0 {
+			os.MkdirAll(a.Dir, 0755)
+			junk := bytes.Repeat([]byte("{\"interrupted\": true}\n"), 4096)
+			for _, name := range a.Tmp {
+				os.WriteFile(filepath.Join(a.Dir, name+".tmp"), junk, 0644)
+			}
+		}
+		ents, err := os.ReadDir(a.Dir)
+		if err != nil {
+			return 0, nil // nothing there yet
+		}
+		n := 0
+	tear:
+		for _, e := range ents {
+			for _, k := range a.Keep {
+				if e.Name() == k {
+					continue tear
+				}
+			}
+			if strings.HasSuffix(e.Name(), ".tmp") {
+				continue
+			}
+			p := filepath.Join(a.Dir, e.Name())
+			if fi, err := os.Lstat(p); err == nil && fi.Mode().IsRegular() {
+				if err := os.Truncate(p, fi.Size()*int64(a.Percent)/100); err == nil {
+					n++
+				}
+			}
+		}
+		return n, nil
 
 	case "writeFile":
 		// harness op: a change of the durable state between two operations of one process
@@ -412,4 +458,19 @@ func dispatch(op Op) (interface{}, error) {
 		return res, nil
 	}
 	return nil, fmt.Errorf("unknown op %q", op.Op)
+}
+
+// heldLists: a caller that analyses the same list of files again (identifier pass, then full pass,
+// then once more) holds ONE slice and passes it every time; equal lists of one process are therefore
+// the same slice object. heldCopies lets the harness notice a callee that wrote into the caller's list.
+var heldLists = map[string][]string{}
+
+func heldList(files []string) []string {
+	key := strings.Join(files, "\x00")
+	if l, ok := heldLists[key]; ok {
+		return l
+	}
+	l := append(make([]string, 0, len(files)+4), files...) // spare capacity, as a list built by append has
+	heldLists[key] = l
+	return l
 }
